@@ -22,7 +22,16 @@ def worker_setup(env):
 
 def run_impl(case, env):
     import tftp_adapter
-    return tftp_adapter.run_session(case)
+    obs = tftp_adapter.run_session(case)
+    if case.get("twin_script") is not None and not case.get("more") and "harness_exception" not in obs:
+        # the same request against the script from which the foreign datagrams were removed
+        twin = {k: v for k, v in case.items() if k != "twin_script"}
+        twin["script"] = case["twin_script"]
+        o2 = tftp_adapter.run_session(twin)
+        if "harness_exception" in o2:
+            return o2
+        obs["twin_transfers"] = o2.get("transfers", [])
+    return obs
 
 
 def parts_of(case, obs):
@@ -85,6 +94,15 @@ def make_judge(required, project, need_request_port=True, extra=None, nontrivial
                 e = extra(v)
                 if e:
                     spec_ok, clause = False, e
+            tw = v.m.get("twin")
+            if tw and "c09" in required:
+                kind += "/twin" if tw["applicable"] else "/twin-not-applicable"
+            if tw and tw["applicable"] and "c09" in required:
+                if spec_ok and not tw["impl_view_equal"]:
+                    # the client's view differs from the run without the foreign datagrams
+                    spec_ok, clause = False, "foreign_interference"
+                if not tw["model_view_equal"]:
+                    agree = False
             pm, pi = project(v.model_trace), project(v.impl_trace)
             if pm != pi:
                 agree = False
